@@ -63,14 +63,15 @@ def gen_field(rng):
             "npol": rng.choice([1, 2]), "innoise": rng.choice([None, "complex", "complex", "real"]),
             "P": 10 ** rng.uniform(-5, -1), "inseed": rng.getrandbits(32),
             "nlevel": 10 ** (rng.uniform(-6, -4) if rng.random() < 0.3 else rng.uniform(-3.5, -0.5)),
-            "yzero": rng.random() < 0.15}
+            "yzero": rng.random() < 0.15, "layout": rng.choice(["C", "C", "C", "F", "strided", "neg"])}
 
 
 def generate(seed, tier):
     rng = random.Random(seed)
     ops = [common.gen_gv_op(rng)] if rng.random() < 0.85 else []
     w = {"pd": 8, "gv": 2, "bad": 2, "reseed": rng.choice([0, 1, 2]), "freeze": rng.choice([0, 1]),
-         "clean": rng.choice([0, 1]), "leak": rng.choice([0, 0, 1])}
+         "clean": rng.choice([0, 1]), "leak": rng.choice([0, 0, 1]),
+         "interleave": rng.choice([0, 1])}
     kinds = [k for k, c in w.items() for _ in range(c)]
     last_n = 64
     for _ in range(rng.randint(4, 9)):
@@ -115,6 +116,8 @@ def generate(seed, tier):
             ops.append({"op": "clean"})      # back to the default grid
         elif k == "leak":
             ops.append({"op": "leak", "upto": rng.choice([40, 70, 140]), "every": rng.choice([1, 1, 3])})
+        elif k == "interleave":
+            ops.append({"op": "interleave", "what": rng.choice(["eye", "eye", "prbs", "dac"])})
     return {}, ops
 
 
@@ -199,6 +202,39 @@ class Bench:
         self.rec.fault("gv_clean")
         return f"{self.gv.fs:.3e}"
 
+    def op_interleave(self, op):
+        """Other library blocks are used between two calls of the device (a link loop: amplify/detect, estimate the
+        eye, generate the next pattern ...): every call must still draw fresh noise."""
+        from opticomlib.devices import GET_EYE, PRBS, DAC
+        x = self.O(np.exp(1j * np.arange(64)) * 0.01)
+        sps = int(self.gv.sps)
+
+        def foreign():
+            with seams.stdout_tap():
+                if op["what"] == "eye":
+                    b = np.tile([0, 1, 1, 0, 1, 0, 0, 1], 8)
+                    w = np.kron(b, np.ones(sps)) + 0.01 * np.cos(np.arange(64 * sps))
+                    try:
+                        GET_EYE(w, sps_resamp=32)
+                    except Exception:
+                        pass        # the estimator itself is C17's subject; only its side effects matter here
+                elif op["what"] == "prbs":
+                    PRBS(7, 40)
+                else:
+                    DAC(PRBS(7, 16), 0.0, 1.0, "nrz")
+        outs = []
+        for k in range(3):
+            outs.append(np.array(self.PD(x, 0.3 * float(self.gv.fs)).noise))
+            foreign()
+        if not np.any(outs[0]):
+            return "no-noise"
+        for i, j in ((0, 1), (1, 2), (0, 2)):
+            if np.array_equal(outs[i], outs[j]):
+                raise Violation("C09/variance", f"PD calls {i} and {j} of a loop that also uses {op['what']} carry the identical "
+                                            f"noise realisation: the noise is not drawn afresh", "fresh/" + op["what"])
+        self.rec.fault("foreign_calls_interleaved")
+        return "fresh"
+
     def op_leak(self, op):
         """Rejected calls pile up on the library's timer stack; a valid detection must keep working and keep giving
         the same result (all draws served as zeros) at every depth."""
@@ -250,7 +286,8 @@ class Bench:
         kw.update(over)
         return self.PD(x, **kw)
 
-    def _mk(self, sig, noise):
+    def _mk(self, sig, noise, layout=None):
+        sig, noise = common.relayout(sig, layout), common.relayout(noise, layout)
         x = self.O(sig, noise) if noise is not None else self.O(sig)
         if self.frozen:
             seams.set_writeable([x.signal, x.noise], False)
@@ -260,7 +297,7 @@ class Bench:
         fs = float(self.gv.fs)
         sig, noise = build_field(op, fs)
         n = op["n"]
-        x = self._mk(sig, noise)
+        x = self._mk(sig, noise, op.get("layout"))
         dig0 = (seams.buf_digest(x.signal), seams.buf_digest(x.noise))
         inc = op["include"].lower()
         th = "thermal" in inc or inc == "all"
@@ -377,7 +414,9 @@ class Bench:
                                                  f"noise is selected (scales {a})", "selection/extra")
         got = float(np.sum(np.square(a)))
         if not bypass:
-            if abs(got - var_exp) > 1e-7 * max(var_exp, got) + 1e-40:
+            # last term: each scale is a difference of outputs that also carry the deterministic beat terms, so it is
+            # known to ~eps*scale_n/R only (matters when the Gaussian terms are many decades below them: fs of a few Hz)
+            if abs(got - var_exp) > 1e-7 * max(var_exp, got) + 1e-40 + 1e-14 * (scale_n / R) * np.sqrt(max(var_exp, got)):
                 raise Violation("C09/variance", f"{what}: sum of squared scales of the Gaussian draws = {got:.9e} A^2, "
                                                 f"documented thermal+shot variance = {var_exp:.9e} A^2 (thermal={th}, "
                                                 f"shot={sh}, fs={fs:.3e}, T={T}, R_load={R}, Fn={Fn}, r={r}, "
@@ -581,6 +620,18 @@ def _long(spec, rec):
             j = int(np.argmax(np.abs(s0 - ref))) if s0.shape == ref.shape else -1
             raise Violation("C09/square-law", f"PD on a {spec['n']}-sample record: signal part differs from "
                                               f"LPF(R_load*r*sum|E|^2) at sample {j}", "signal/long")
+        # locality: what the detector shows at the beginning of a record cannot depend on what the field does three
+        # quarters of a record later (any non-circular filter; a frequency-domain shortcut wraps the end into the start)
+        sig_b = np.array(sig, copy=True)
+        sig_b[..., (3 * spec["n"]) // 4:] *= 0.3
+        with ScriptedRNG("zero"):
+            yb = b._pd(b._mk(sig_b, None), op)
+        q = spec["n"] // 4
+        sb = np.asarray(yb.signal).real
+        if sb.shape != s0.shape or not np.allclose(sb[:q], s0[:q], rtol=1e-9, atol=1e-12 * np.max(np.abs(ref))):
+            j = int(np.argmax(np.abs(sb[:q] - s0[:q]))) if sb.shape == s0.shape else -1
+            raise Violation("C09/square-law", f"PD on a {spec['n']}-sample record: the output at sample {j} changes when "
+                                              f"only the last quarter of the field is changed", "signal/long-local")
         rec.n_ops += 1
         rec.ok_ops += 1
         rec.probe("record longer than 2^22 samples")
